@@ -432,6 +432,13 @@ validate_body_helper (DBusTypeReader       *reader,
               {
                 int array_elem_type = _dbus_type_reader_get_element_type (reader);
 
+                /* An array is itself one level of nesting. That has to be
+                 * counted here: empty arrays and arrays of fixed-size
+                 * elements are not recursed into, so the check at the
+                 * top of this function never sees them. */
+                if (total_depth + 1 > (DBUS_MAXIMUM_TYPE_RECURSION_DEPTH * 2))
+                  return DBUS_INVALID_NESTED_TOO_DEEPLY;
+
                 if (!dbus_type_is_valid (array_elem_type))
                   {
                     return DBUS_INVALID_UNKNOWN_TYPECODE;
